@@ -214,23 +214,25 @@ impl ObjectTransmissionInformation {
 
         let n_max = symbol_size as u32 / (sub_symbol_size * alignment) as u32;
 
-        let kl = |n: u32| -> u32 {
+        // KL(n) is undefined (None) when not even the smallest K' fits n sub-blocks in memory
+        let kl = |n: u32| -> Option<u32> {
             for &(kprime, _, _, _, _) in SYSTEMATIC_INDICES_AND_PARAMETERS.iter().rev() {
                 let x = int_div_ceil(symbol_size as u64, alignment as u64 * n as u64);
                 // Compared in u64: the quotient does not fit in u32 for large memory budgets
                 if kprime as u64 <= decoder_memory_requirement / (alignment as u64 * x as u64) {
-                    return kprime;
+                    return Some(kprime);
                 }
             }
-            unreachable!();
+            None
         };
 
-        let num_source_blocks = int_div_ceil(kt as u64, kl(n_max) as u64);
+        let kl_max = kl(n_max).expect("decoder_memory_requirement is too small for any block size");
+        let num_source_blocks = int_div_ceil(kt as u64, kl_max as u64);
 
         let mut n = 1;
         for i in 1..=n_max {
             n = i;
-            if int_div_ceil(kt as u64, num_source_blocks as u64) <= kl(n) {
+            if kl(n).is_some_and(|k| int_div_ceil(kt as u64, num_source_blocks as u64) <= k) {
                 break;
             }
         }
